@@ -35,6 +35,8 @@ import Kanzi.Drv.EXE
 import Kanzi.Drv.BWT
 import Kanzi.Drv.ROLZ
 import Kanzi.Drv.Text
+import Kanzi.Drv.DecForge
+import Kanzi.Drv.AnsDec
 import Kanzi.Drv.ImageGen3
 
 open Kanzi
@@ -220,6 +222,8 @@ def main (args : List String) : IO UInt32 := do
   | ["bwt"] => Kanzi.Drv.bwtLoop stdin stdout; return 0
   | ["rolz"] => loop stdin stdout Kanzi.Drv.rolz; return 0
   | ["text"] => loop stdin stdout Kanzi.Drv.text; return 0
+  | ["decforge"] => loop stdin stdout Kanzi.Drv.decforge; return 0
+  | ["ansdec"] => loop stdin stdout Kanzi.Drv.ansdec; return 0
   | ["imagegen3"] => loop stdin stdout Kanzi.Drv.imagegen3; return 0
   | ["image"] => loop stdin stdout Kanzi.Drv.image; return 0
   | _ => IO.eprintln "usage: kmodel <norm>"; return 2
